@@ -79,7 +79,8 @@ def pandas_schema(spec, parsers=None):
     if spec.get("index"):
         levels = [pa.Index(pd_dtype(fs["dtype"]), name=fs["name"],
                            **_field_kwargs(pa, fs)) for fs in spec["index"]]
-        index = levels[0] if len(levels) == 1 else pa.MultiIndex(levels)
+        index = levels[0] if len(levels) == 1 else pa.MultiIndex(
+            levels, ordered=spec.get("index_ordered", True), coerce=bool(spec.get("index_coerce", False)))
     if spec["kind"] == "series":
         fs = spec["field"]
         return pa.SeriesSchema(pd_dtype(fs["dtype"]), name=fs["name"], index=index,
